@@ -274,9 +274,9 @@ def run(ctx):
                         "    row = c06.slope_by_conversion(db, %r)\n    parts = 1.0\n    for (mult, atom, exp), sg in t.decompose(%r):\n        parts *= (float(mult) * c06.slope_by_conversion(db, atom) ** exp) ** sg\n"
                         "    print('row', row, 'composition', parts)\n    assert abs(row - parts) <= %r * abs(parts), (row, parts)\n" % (s, s, float(tol) + 1e-12),
                     )
-                # rows that are a POWER of one part (m3, ft2, 1/ft2, cm2 ...): the part raised through the
+                # rows that are a POWER of one part (m3, ft2, 1/ft2, cm2 ..., and the plain reciprocals 1/ft, 1/bbl ...): the part raised through the
                 # exponent-list conversion, asked with +n, then -n, then +n again, agrees with the row
-                if len(dec) == 1 and dec[0][0][0] == 1 and abs(dec[0][0][2]) >= 2 and rel <= tol:
+                if len(dec) == 1 and dec[0][0][0] == 1 and dec[0][0][2] * dec[0][1] != 1 and rel <= tol:
                     (_mult, atom, exp), sg = dec[0]
                     aq = db.GetQuantityType(atom)
                     ab = db.GetBaseUnit(aq)
